@@ -5,8 +5,9 @@ CONSTANTS
   MaxArgs = 0
   ItemVals = {}
   MaxItems = 0
+  MaxOps = 0
   Ops = {}
-INVARIANTS FormatLaws
+INVARIANTS FormatLaws EveryOpIsMeaning TAgainIsSame
 CONSTRAINT Track
 POSTCONDITION Report
 CHECK_DEADLOCK FALSE
